@@ -812,4 +812,204 @@ theorem demux_framing (rid : Nat) (hid : rid < 65536) (ps : List Piece) (tail : 
     demux (framing rid ps tail) = .ok { out := outsOf ps, err := errsOf ps, fin := .eof } :=
   demuxFuel_framing rid hid tail ps _ h (framing_length rid ps tail)
 
+/-! #### stdin through `io.Copy`: the record boundaries do not depend on the reader -/
+
+theorem chunkFuel_nil (f : Nat) : chunkFuel f [] = [] := by
+  cases f <;> simp [chunkFuel]
+
+theorem chunkFuel_single (f : Nat) (p : Bytes) (h0 : p ≠ []) (h : p.length ≤ maxWrite) :
+    chunkFuel (f + 1) p = [p] := by
+  have hpos : 0 < p.length := List.length_pos_iff.mpr h0
+  unfold chunkFuel
+  have e1 : ¬ (p.length = 0) := by omega
+  have e2 : ¬ (p.length > maxWrite) := by omega
+  simp only [e1, e2, if_false, List.take_length, List.drop_length, chunkFuel_nil]
+
+theorem chunkFuel_succ (f : Nat) (p : Bytes) : chunkFuel (f + 1) p =
+    if p.length = 0 then [] else
+      p.take (if p.length > maxWrite then maxWrite else p.length) ::
+        chunkFuel f (p.drop (if p.length > maxWrite then maxWrite else p.length)) := by
+  rw [chunkFuel]
+
+theorem readCount_bounds (wants : List Nat) (remLen avail : Nat) (h1 : 0 < remLen) (h2 : 0 < avail) :
+    0 < readCount wants remLen avail ∧ readCount wants remLen avail ≤ avail ∧
+    readCount wants remLen avail ≤ remLen := by
+  cases wants with
+  | nil => simp only [readCount]; omega
+  | cons x t =>
+    simp only [readCount]
+    split <;> omega
+
+/-- chunks that are all exactly maxWrite long -/
+def Fulls (l : List Bytes) : Prop := ∀ c ∈ l, c.length = maxWrite
+
+theorem chunkFuel_fulls : ∀ (fulls : List Bytes) (B : Bytes) (f : Nat), Fulls fulls →
+    (fulls.flatten ++ B).length < f →
+    chunkFuel f (fulls.flatten ++ B) = fulls ++ chunkFuel (f - fulls.length) B := by
+  intro fulls
+  induction fulls with
+  | nil => intro B f _ _; simp
+  | cons c rest ih =>
+    intro B f hfull hf
+    have hmw : maxWrite = 65500 := rfl
+    have hc : c.length = maxWrite := hfull c (List.mem_cons_self ..)
+    cases f with
+    | zero => omega
+    | succ f' =>
+      simp only [List.flatten_cons, List.append_assoc]
+      rw [chunkFuel_succ]
+      have e1 : ¬ ((c ++ (rest.flatten ++ B)).length = 0) := by
+        simp only [List.length_append]; omega
+      have en : (if (c ++ (rest.flatten ++ B)).length > maxWrite then maxWrite
+          else (c ++ (rest.flatten ++ B)).length) = c.length := by
+        split
+        · exact hc.symm
+        · rename_i h
+          simp only [List.length_append] at h ⊢
+          omega
+      simp only [e1, if_false, en, List.take_left', List.drop_left']
+      rw [ih B f' (fun x hx => hfull x (List.mem_cons_of_mem _ hx)) (by
+        simp only [List.flatten_cons, List.append_assoc, List.length_append] at hf ⊢; omega)]
+      have hsub : f' + 1 - (c :: rest).length = f' - rest.length := by simp
+      rw [hsub]
+      rfl
+
+/-- invariant of `ReadFrom`: the wire holds full records, the buffer at most maxWrite bytes, and
+together with what is still to be read they are the body -/
+def J (t rid : Nat) (body : Bytes) (w : BufW) (rem : Bytes) : Prop :=
+  ∃ fulls : List Bytes, Fulls fulls ∧ w.wire = recordsOf t rid fulls ∧ w.buf.length ≤ maxWrite ∧
+    fulls.flatten ++ w.buf ++ rem = body
+
+theorem flush_J {t rid : Nat} {body : Bytes} {w : BufW} {rem : Bytes} (h : J t rid body w rem)
+    (hfull : w.avail = 0) : J t rid body (BufW.flush t rid w) rem ∧ (BufW.flush t rid w).buf = [] := by
+  obtain ⟨fulls, hf, hw, hb, hbody⟩ := h
+  have hmw : maxWrite = 65500 := rfl
+  have hlen : w.buf.length = maxWrite := by unfold BufW.avail at hfull; omega
+  have hne : w.buf ≠ [] := by intro he; rw [he] at hlen; simp at hlen; omega
+  have hfl : BufW.flush t rid w = { wire := w.wire ++ streamWrite t rid w.buf, buf := [] } := by
+    unfold BufW.flush
+    have e : ¬ (w.buf.length = 0) := by omega
+    simp only [e, if_false]
+  rw [hfl]
+  refine ⟨⟨fulls ++ [w.buf], ?_, ?_, ?_, ?_⟩, rfl⟩
+  · intro c hc
+    rcases List.mem_append.mp hc with hc | hc
+    · exact hf c hc
+    · have : c = w.buf := by simpa using hc
+      rw [this]; exact hlen
+  · show w.wire ++ streamWrite t rid w.buf = _
+    rw [hw, recordsOf_append, streamWrite_single t rid w.buf hne (by omega)]
+    simp [recordsOf]
+  · show ([] : Bytes).length ≤ maxWrite
+    simp
+  · show (fulls ++ [w.buf]).flatten ++ [] ++ rem = body
+    simpa using hbody
+
+theorem readFrom_J (t rid : Nat) (e : Bool) (body : Bytes) : ∀ (f : Nat) (w : BufW) (rem : Bytes) (wants : List Nat),
+    J t rid body w rem → rem.length < f → J t rid body (BufW.readFromFuel t rid e f w rem wants) [] := by
+  intro f
+  induction f with
+  | zero => intro w rem wants _ h; omega
+  | succ f ih =>
+    intro w rem wants hJ hf
+    have hmw : maxWrite = 65500 := rfl
+    unfold BufW.readFromFuel
+    -- the state after the flush at the top of the loop
+    have h1 : J t rid body (if w.avail = 0 then BufW.flush t rid w else w) rem ∧
+        0 < (if w.avail = 0 then BufW.flush t rid w else w).avail := by
+      by_cases ha : w.avail = 0
+      · simp only [ha, if_true]
+        obtain ⟨hj, hb⟩ := flush_J hJ ha
+        refine ⟨hj, ?_⟩
+        unfold BufW.avail; rw [hb]; simp; omega
+      · simp only [ha, if_false]
+        exact ⟨hJ, by omega⟩
+    generalize (if w.avail = 0 then BufW.flush t rid w else w) = w1 at h1
+    obtain ⟨hJ1, hav⟩ := h1
+    by_cases hr : rem.length = 0
+    · rw [if_pos hr]
+      have : rem = [] := List.length_eq_zero_iff.mp hr
+      subst this
+      exact hJ1
+    · rw [if_neg hr]
+      simp only
+      obtain ⟨hm1, hm2, hm3⟩ := readCount_bounds wants rem.length w1.avail (by omega) hav
+      generalize readCount wants rem.length w1.avail = m at hm1 hm2 hm3
+      obtain ⟨fulls, hfu, hw, hb, hbody⟩ := hJ1
+      have hJ2 : J t rid body { w1 with buf := w1.buf ++ rem.take m } (rem.drop m) := by
+        refine ⟨fulls, hfu, hw, ?_, ?_⟩
+        · simp only [List.length_append, List.length_take]
+          unfold BufW.avail at hm2
+          omega
+        · simp only [List.append_assoc, List.take_append_drop]
+          simpa [List.append_assoc] using hbody
+      by_cases hlast : (rem.drop m).length = 0 ∧ e = true
+      · rw [if_pos hlast]
+        have hnil : rem.drop m = [] := List.length_eq_zero_iff.mp hlast.1
+        rw [hnil] at hJ2
+        by_cases ha2 : ({ w1 with buf := w1.buf ++ rem.take m } : BufW).avail = 0
+        · rw [if_pos ha2]
+          exact (flush_J hJ2 ha2).1
+        · rw [if_neg ha2]
+          exact hJ2
+      · rw [if_neg hlast]
+        exact ih _ _ _ hJ2 (by rw [List.length_drop]; omega)
+
+theorem close_J (rid : Nat) (body : Bytes) (w : BufW) (h : J typeStdin rid body w []) :
+    BufW.close typeStdin rid w = stdinRecords rid body := by
+  obtain ⟨fulls, hfu, hw, hb, hbody⟩ := h
+  rw [List.append_nil] at hbody
+  unfold BufW.close stdinRecords streamWrite BufW.flush
+  rw [streamWriteFuel_eq]
+  have hlen : body.length = fulls.flatten.length + w.buf.length := by rw [← hbody]; simp
+  have hfl : fulls.length ≤ fulls.flatten.length := by
+    have hmw : maxWrite = 65500 := rfl
+    clear hw hbody hlen
+    induction fulls with
+    | nil => simp
+    | cons c cs ih =>
+      have := hfu c (List.mem_cons_self ..)
+      have := ih (fun x hx => hfu x (List.mem_cons_of_mem _ hx))
+      simp only [List.length_cons, List.flatten_cons, List.length_append]
+      omega
+  have hch := chunkFuel_fulls fulls w.buf (body.length + 1) hfu (by rw [hbody]; omega)
+  rw [hbody] at hch
+  rw [hch, recordsOf_append]
+  by_cases h0 : w.buf.length = 0
+  · have : w.buf = [] := List.length_eq_zero_iff.mp h0
+    simp [hw, this, chunkFuel_nil, recordsOf]
+  · simp only [h0, if_false]
+    have hne : w.buf ≠ [] := fun he => h0 (by rw [he]; rfl)
+    have hg : body.length + 1 - fulls.length = (body.length - fulls.length) + 1 := by omega
+    rw [hg, chunkFuel_single _ w.buf hne hb, hw, streamWrite_single typeStdin rid w.buf hne hb]
+    simp [recordsOf]
+
+/-- Whatever kind of reader the request body is — none (empty body), one with `WriteTo`, or a
+plain reader returning any positive numbers of bytes per call, with or without data on EOF — the
+stdin records on the wire are the same: full records of maxWrite bytes, the remainder, the empty
+record. -/
+theorem stdinWire_eq (rid : Nat) (body : Bytes) (rk : BodyReader) (hnone : rk = .none → body = []) :
+    stdinWire rid body rk = stdinRecords rid body := by
+  have hJ0 : J typeStdin rid body {} body := ⟨[], by simp [Fulls], by simp [recordsOf], by simp, by simp⟩
+  cases rk with
+  | none =>
+    have := hnone rfl
+    subst this
+    exact close_J rid [] {} ⟨[], by simp [Fulls], by simp [recordsOf], by simp, by simp⟩
+  | plain wants e =>
+    exact close_J rid body _ (readFrom_J typeStdin rid e body _ {} body wants hJ0 (by omega))
+  | writerTo =>
+    unfold stdinWire BufW.write BufW.writeFuel
+    have hmw : maxWrite = 65500 := rfl
+    by_cases hbig : body.length > ({} : BufW).avail
+    · have hbig' : body.length > maxWrite := by simpa [BufW.avail] using hbig
+      simp only [hbig, if_true]
+      have : (({} : BufW).buf.length = 0 ∧ (!false) = true) := by simp
+      simp only [this, and_self, if_true]
+      unfold BufW.close BufW.flush stdinRecords
+      simp
+    · simp only [hbig, if_false]
+      have hsm : body.length ≤ maxWrite := by simpa [BufW.avail] using hbig
+      exact close_J rid body _ ⟨[], by simp [Fulls], by simp [recordsOf], by simpa using hsm, by simp⟩
+
 end Casket.FCGISpec
